@@ -582,7 +582,9 @@ func (g *gen) iterOpts(label string) IterOpts {
 	}
 	if g.p.Masking && o.KT == KTBoth {
 		if rapid.IntRange(0, 3).Draw(g.t, label+"maskon") > 0 {
-			o.Mask = rapid.IntRange(1, MaxSuffix).Draw(g.t, label+"mask")
+			// a mask suffix with a large number admits more range keys as masks
+			// (hidden iff mask >= rangekey > point, in suffix numbers)
+			o.Mask = rapid.SampledFrom([]int{6, 6, 5, 5, 4, 4, 3, 2, 1}).Draw(g.t, label+"mask")
 			o.MaskF = rapid.Bool().Draw(g.t, label+"maskf")
 		}
 	}
